@@ -197,19 +197,37 @@ func syncScenario(w *World, p *Plan, rec *Record) {
 	w.isolate(j.Idx, true)
 	w.isolate(src.Idx, true)
 	var vec []string
+	diverged := false // after the first different decision the two ledgers differ: later differences are its consequences
 	feed := func(label string, v *accountant.Vertex) {
+		if diverged {
+			return
+		}
 		a, b := *v, *v
 		e1 := src.Acc.AddLeaf(ctx, &a)
 		e2 := j.Acc.AddLeaf(ctx, &b)
 		vec = append(vec, fmt.Sprintf("%s:%v/%v", label, e1 == nil, e2 == nil))
 		w.probe("c14-follow-up-gossip")
 		if (e1 == nil) != (e2 == nil) {
-			w.violate("C14", "follow-up", "joiner-decides-differently-from-peer:"+label, j.Idx, "peer: %v; joiner: %v", e1, e2)
+			cause := "joiner-decides-differently-from-peer:" + label
+			if (e1 != nil && containsStr(e1.Error(), "minimal weight")) || (e2 != nil && containsStr(e2.Error(), "minimal weight")) {
+				// the weight/throughput window is history dependent and is not part of what a sync transfers (known finding)
+				cause = "minimal-weight-window-differs-after-load"
+			}
+			w.violate("C14", "follow-up", cause, j.Idx, "%s: peer: %v; joiner: %v", label, e1, e2)
+			diverged = true
 		}
 	}
 	nfollow := 3 + r.Intn(4)
 	for k := 0; k < nfollow; k++ {
-		switch r.Intn(5) {
+		switch r.Intn(6) {
+		case 5:
+			// a late vertex from a lagging sealer, built on old parents, then a vertex merging it with the current tip
+			if v, e := w.craft(src, &Step{Kind: "valid", From: 0, To: 1, Sup: uint64(1 + r.Intn(100)), Via: "old-both"}, w.adversary()); e == nil {
+				feed("late-vertex-on-old-parents", v)
+				if v2, e2 := w.craft(src, &Step{Kind: "valid", From: 0, To: 1, Sup: uint64(1 + r.Intn(100))}, w.adversary()); e2 == nil {
+					feed("merge-of-tip-and-late-vertex", v2)
+				}
+			}
 		case 0, 1:
 			if v, e := w.craft(src, &Step{Kind: "valid", From: 0, To: 1, Sup: uint64(1 + r.Intn(100))}, w.adversary()); e == nil {
 				feed("valid-child", v)
@@ -235,6 +253,9 @@ func syncScenario(w *World, p *Plan, rec *Record) {
 			if v, e := w.craftOn(src, ss, &Step{Kind: "valid", From: 0, To: 1, Sup: uint64(1 + r.Intn(100))}, w.adversary(), true); e == nil {
 				feed("child-of-old-tip", v)
 			}
+		}
+		if diverged {
+			break
 		}
 		if s1, s2 := w.snapshot(src), w.snapshot(j); s1 != nil && s2 != nil && ledgerSignature(s1) != ledgerSignature(s2) && len(w.Viol) == 0 {
 			w.violate("C14", "follow-up", "ledgers-diverge-under-identical-gossip", j.Idx, "after %v", vec)
@@ -281,6 +302,11 @@ func init() {
 		}
 		if r.Chance(0.25) {
 			cfg.TruncateDiff = uint64(2 + r.Intn(8))
+		}
+		if r.Chance(0.4) {
+			// scale the initial throughput (shipped: 50) down to the size of these ledgers, so that the
+			// minimal-weight window matters here as it does for a ledger of hundreds of vertices
+			cfg.SignalBuf = uint64(2 + r.Intn(8))
 		}
 		cfg.StreamFaultKind = []string{"none", "none", "none", "dup-vertex", "dup-trx", "unknown-parent", "second-self-sealed", "empty-trx", "cut", "unknown-right-parent", "unknown-left-parent"}[r.Intn(11)]
 		if r.Chance(0.3) {
